@@ -333,6 +333,15 @@ class Pragma(Instruction):
         """
         return self._program_version
 
+    @property
+    def cost(self) -> int:
+        """`#pragma version` is not an opcode: it is not executed and costs nothing.
+
+        Returns:
+            OpcodeCost of the instruction.
+        """
+        return 0
+
 
 class Err(Instruction):
     """`err` creates a error failing the execution of teal program immediately.
@@ -1857,6 +1866,15 @@ class Label(InstructionWithLabel):
 
     def __str__(self) -> str:
         return f"{self._label}:"
+
+    @property
+    def cost(self) -> int:
+        """A label is not an opcode: it is not executed and costs nothing.
+
+        Returns:
+            OpcodeCost of the instruction.
+        """
+        return 0
 
 
 class Callsub(InstructionWithLabel):
@@ -5541,6 +5559,15 @@ class Sha3_256(Instruction):
     def __init__(self) -> None:
         super().__init__()
         self._version: int = 7
+
+    @property
+    def cost(self) -> int:
+        """cost of executing sha3_256 instruction.
+
+        Returns:
+            OpcodeCost of the instruction.
+        """
+        return 130
 
 
 class Vrf_verify(Instruction):
